@@ -13,7 +13,7 @@ def heap_traces(rep, tier):
     n = 160 if tier == "quick" else 2400
     jobs = []
     for i in range(n):
-        NP, K = rng.choice([(4, 2), (6, 2), (6, 3), (5, 3)])
+        NP, K = rng.choice([(4, 2), (6, 2), (6, 3), (8, 3)])
         raw = i % 2 == 1
         jobs.append((NP, K, rng.randint(3, 8), raw, rng.randrange(1 << 30)))
     traces = common.pmap_chunked(drv_modelheap.sequence, jobs, chunk=4)
